@@ -1056,6 +1056,34 @@ def modsig(tier, seed, ci, nc):
 STREAMS['modsig'] = modsig
 
 
+def retrbound(tier, seed, ci, nc, count=3000):
+    """signatures.signature of a bound method whose function carries a stored signature with provenance: the signatures of
+    the universe with a receiver in front, with default provenance and with the provenance of earlier operations (prov_rand's
+    generator), model: retrieveBound = receiver dropped + its entries pruned"""
+    rng = _rng(seed, 'retrbound', ci)
+    univ = U('ab', 2)
+
+    def gen():
+        for ps in univ:
+            if ps and ps[0][1] == 'po':
+                continue
+            full = (P('self', 'pk'),) + tuple(ps)
+            if any(p[1] == 'po' for p in ps):
+                continue
+            yield ('retrievebound', D(full, fn=1))
+            # provenance as left by earlier operations: several callables, several depths, per-parameter lists
+            names_ = [p[0] for p in full]
+            for _ in range(2):
+                k = rng.choice([2, 3])
+                src = {n: sorted(rng.sample(range(1, k + 1), rng.randint(1, k))) for n in names_}
+                depths = {i: rng.randint(0, 2) for i in range(1, k + 1)}
+                yield ('retrievebound', D(full, fn=1, src=src, depths=depths))
+    return _slice(gen(), ci, nc)
+
+
+STREAMS['retrbound'] = retrbound
+
+
 def retrieve(tier, seed, ci, nc, n_other=3000, n_plain=2000, n_sphinx=1500):
     """C07 over the corpus: all star-taking functions + a seeded sample of the other callables"""
     from . import corpus
